@@ -187,7 +187,8 @@ def search(item, seed):
     for _ in range(60):
         gts = [dict(gen_box(rng), vis=rng.choice([None, "full", "none", "partial"])) for _ in range(rng.randint(0, 3))]
         pts = [p for d in gts for p in points_near(rng, d, rng.randint(0, 6))] or [[50.0, 50.0, 0.0]]
-        nondet = [[p for d in gts for p in points_near(rng, d, rng.randint(0, 4))] for _ in range(rng.randint(0, 2))]
+        nondet = [[p for d in gts for p in points_near(rng, d, rng.randint(0, 4))] + [[round(rng.uniform(-40, 40), 2), round(rng.uniform(-40, 40), 2), round(rng.uniform(-1, 1), 2)]
+                                                                                        for _ in range(rng.randint(0, 3))] for _ in range(rng.randint(0, 2))]
         case = dict(gts=gts, points=pts, nondet=nondet, s0=rng.choice([1.0, 1.1]), s100=rng.choice([1.0, 1.5]), min_points=rng.choice([0, 1, 2, 5]))
         try:
             why = check_frame(case)
